@@ -128,7 +128,9 @@ let run_case k line =
       let draws = (if hand then P.mix_switch_draws else P.mix_factory_draws) use ty st node_at in
       let cls = if hand then P.switch_target ty st else P.factory_anthropogenic ty st in
       let exc = ch = P.MixAnthropogenic && P.class_call_throws cls node_at in
-      Printf.printf "%d mx%d elig=%d choice=%s bdraws=%d exc=%d\n" k (j - 16) (b01 elig) (choice_name ch) (b01 draws) (b01 exc)
+      (* create_dynamic_kernel may leave a disabled anthropogenic kernel out: nothing to ask then *)
+      let elig_s = if (not hand) && not (P.dynamic_kernel_anthro_built use) then "-" else string_of_int (b01 elig) in
+      Printf.printf "%d mx%d elig=%s choice=%s bdraws=%d exc=%d\n" k (j - 16) elig_s (choice_name ch) (b01 draws) (b01 exc)
     done
   | _ -> ()
 
